@@ -30,11 +30,12 @@ Theorem C01_refuted_F06d :
 Proof. exact refuted_F06d. Qed.
 Print Assumptions C01_refuted_F06d.
 
-(* F01e, F13b, F20a, F04c: the emitted file does not compile; in the model that is the statement Broken *)
-Theorem C01_refuted_syntax_F01e_F13b_F20a_F04c :
+(* a file that does not compile is the statement Broken in the model: the class of the open findings F13b, F04c, F01g
+   (F01e and F20a were of this class and are fixed in /repo: 0981866, 4164990; their documents are regression cases) *)
+Theorem C01_refuted_syntax_F13b_F04c_F01g :
   c_parses w_syntax = false /\ failed_with (ex w_syntax [n_p; n_mocks]) ESyntax.
 Proof. exact refuted_syntax. Qed.
-Print Assumptions C01_refuted_syntax_F01e_F13b_F20a_F04c.
+Print Assumptions C01_refuted_syntax_F13b_F04c_F01g.
 
 Theorem C01_refuted_F01f :
   c_closed w_F01f = false /\ failed_with (ex w_F01f [n_dup; n_dup; n_ep]) ENotFound.
